@@ -187,5 +187,10 @@ class TimedCacheManager(CacheManager):
             if timestamp > threshold_time:
                 break
             self.delete(ident)
-            del self._time_added[0]
         log.debug('Clear done.')
+
+    def delete(self, ident):
+        # forget the time stamps as well: a stale one would make gc() remove
+        # a later entry with the same ident before its own timeout
+        self._time_added = [(i, t) for i, t in self._time_added if i != ident]
+        return super().delete(ident)
